@@ -29,12 +29,7 @@ WRAPS = (0.0, 180.0)
 
 def gain_vectors(full):
     """(gff, gpe, gde, gie) vectors, simplest first."""
-    base = [(0.0, 0.0, 0.0, 0.0), (1.0, 1.0, 1.0, 1.0), (-3.0, -3.0, -3.0, -3.0)]
-    for k in range(4):
-        v = [0.0] * 4
-        v[k] = 1.0
-        base.append(tuple(v))
-    base.append((0.0, -3.0, 0.0, 0.0))
+    base = [(0.0, 0.0, 0.0, 0.0), (1.0, 1.0, 1.0, 1.0), (-3.0, -3.0, -3.0, -3.0), (0.0, 1.0, 0.0, 0.0), (0.0, 0.0, 0.0, 1.0)]
     extra = [(0.0, INF, 0.0, 0.0), (0.0, NAN, 0.0, 0.0)]
     if not full:
         return base + extra
@@ -366,7 +361,7 @@ def run():
             or shortest_ok(-199.0, -199.0, 0.0) is not True or shortest_ok(NAN, INF, 180.0) is not None or shortest_ok(NAN, 1.0, 180.0) is not False or shortest_ok(180.0, -180.0, 180.0) is not True:
         raise core.BrokenCheck("shortest-wrapped-difference reference fails its self-check")
     jobs = [(cfg, depth, core.TIER) for cfg, depth in configs(core.TIER)]
-    ck.merge(core.pmap(work, jobs, chunksize=2))
+    ck.merge(core.pmap(work, jobs, chunksize=1))
     ck.coverage_extra["configurations"] = len(jobs)
     ck.assumptions = [
         "limits are required after every update the controller evaluates (positive lapse); the construction/restart value 0.0 of output and error sum "
@@ -382,7 +377,7 @@ def run():
     ]
     return ck.finish(
         rule="configurations = wrap {0,180} x error-sum limits %r x output limits x gain vectors (gff,gpe,gde,gie) x rate mode; calcRate True: %d gain vectors x 4 output limits, "
-             "sequences of <= 3 updates, lapse %s; calcRate False: 10 gain vectors x 2 output limits x ger %s, sequences of <= %d updates, lapse {0.125, 1} x sensed rate %s. "
+             "sequences of <= 3 updates, lapse %s; calcRate False: 7 gain vectors x 2 output limits x ger %s, sequences of <= %d updates, lapse {0.125, 1} x sensed rate %s. "
              "update = input x set point over %r x lapse (x rate), plus a zero-lapse update. evaluations = real controller updates judged; states = distinct fed-back states summed over configurations."
              % (ESLIMS, len(gain_vectors(core.TIER != "quick")), "{0.125, 1}" if core.TIER == "quick" else "{0.125, 1, inf}",
                 "{-3}" if core.TIER == "quick" else "{1,-3}", 2 if core.TIER == "quick" else 3,
